@@ -363,8 +363,55 @@ def gen_case(rng, wild=None) -> dict:
                            "roc": lambda: rng.choice([1.01, 1.05, 0.98, 1.1]),
                            "pct": lambda: rng.choice([1.0, 5.0, -2.0, 0.5])}[kind]
                     db[dbn] = {"off": a, "values": [float(gen()) if rng.random() >= pn else NAN for _ in range(a, b + 1)]}
+            if rng.random() < 0.2:
+                _zero_implied_point(rng, db, p)
     return {"model": model, "source": source_of(model), "freq": freq, "start": start, "nper": nper, "db": db,
             "plan": plan, "opts": opts}
+
+
+def _db_get(db, name, k):
+    s = db.get(name)
+    if s is not None and 0 <= k - s["off"] < len(s["values"]):
+        return s["values"][k - s["off"]]
+    return NAN
+
+
+def _db_set(db, name, k, v):
+    s = db.get(name)
+    vv = {} if s is None else {s["off"] + i: x for i, x in enumerate(s["values"])}
+    vv[k] = float(v)
+    db[name] = {"off": min(vv), "values": [vv.get(j, NAN) for j in range(min(vv), max(vv) + 1)]}
+
+
+def _zero_implied_point(rng, db, p):
+    """Make the implied LEVEL of one exogenized point of plan entry p exactly 0.0 (a level pinned at zero, a rate of
+    change of 0, a percent change of -100, a difference of minus the reference level, a flat path from a zero level):
+    `0.0` is a perfectly good exogenized value and must not be taken for "no value"."""
+    kind, name, sh = p["kind"], p["name"], p["shift"]
+    dbn = plan_databox_name(p)
+    c = rng.choice(p["cols"])
+    if kind == "none":
+        _db_set(db, dbn, c, 0.0)
+    elif kind == "roc":
+        _db_set(db, dbn, c, 0.0)
+    elif kind == "pct":
+        _db_set(db, dbn, c, -100.0)
+    elif kind == "diff":
+        # the reference value must be known in advance: an initial condition (or an input value not simulated over)
+        pres = [k for k in p["cols"] if k + sh < 0]
+        if not pres:
+            return
+        c = rng.choice(pres)
+        ref = _db_get(db, name, c + sh)
+        if ref != ref:
+            ref = 1.0
+            _db_set(db, name, c + sh, ref)
+        _db_set(db, dbn, c, -ref)
+    elif kind == "flat":
+        pres = [k for k in p["cols"] if k + sh < 0]
+        if pres:
+            _db_set(db, name, rng.choice(pres) + sh, 0.0)
+    # log / diff_log: exp(.) is never zero
 
 
 def plan_databox_name(p) -> str | None:
@@ -615,6 +662,17 @@ def _case_stats(case, out, dist):
         k = ("?" if p["when_data"] else "!") + p["kind"]
         dist["plan_points"][k] = dist["plan_points"].get(k, 0) + len(p["cols"])
     dist["wild_models"] += int(case["model"]["wild"])
+    reg = {}
+    for p in case["plan"]:
+        for c in p["cols"]:
+            reg[(p["name"], c)] = p
+    for (name, c), p in reg.items():
+        dbn = plan_databox_name(p)
+        exo = _db_get(case["db"], dbn, c) if dbn else NAN
+        ref = _db_get(case["db"], name, c + p["shift"])
+        z = {"none": exo == 0, "roc": exo == 0 and ref == ref, "pct": exo == -100 and ref == ref,
+             "diff": exo == exo and exo == -ref, "flat": ref == 0}.get(p["kind"], False)
+        dist["zero_implied_points"] = dist.get("zero_implied_points", 0) + int(bool(z))
     dist["with_input_residuals"] += int(any(n.startswith("res_") for n in case["db"]))
     dist["with_missing_inputs"] += int(any(v != v for s in case["db"].values() for v in s["values"]))
     if "err" in out:
@@ -890,11 +948,53 @@ WITNESS = {
 }
 
 
+def _zero_cases() -> list:
+    """Exogenized points whose implied level is exactly 0.0, one per plan transform that can produce it."""
+    model = {"eqs": [{"lhs": "y1", "tr": "none", "rhs": "0.8*y1[-1] + 0.5*z1", "identity": False},
+                     {"lhs": "y2", "tr": "diff", "rhs": "0.2*y1 - 0.1*y2[-1]", "identity": False},
+                     {"lhs": "y3", "tr": "pct", "rhs": "0.5*z1", "identity": False},
+                     {"lhs": "y4", "tr": "roc", "rhs": "1 + 0.01*z1", "identity": False},
+                     {"lhs": "y5", "tr": "none", "rhs": "y1 + y2 + y3 + y4", "identity": True}],
+             "params": {}, "exo": ["z1"], "wild": False, "forward_free": True}
+    base_db = {"y1": {"off": -1, "values": [1.5]}, "y2": {"off": -1, "values": [1.0]}, "y3": {"off": -1, "values": [2.0]},
+               "y4": {"off": -1, "values": [1.25]}, "z1": {"off": -1, "values": [1.0, 0.75, 1.25, 0.5, 1.5]},
+               "res_y1": {"off": 0, "values": [0.01, -0.02, 0.03, 0.01]}, "res_y2": {"off": 0, "values": [0.02, 0.0, -0.01, 0.01]}}
+    opts = {"order": "dates_equations", "shocks_from_data": True, "parameters_from_data": False,
+            "when_simulates_nan": "silent"}
+
+    def P(name, kind, cols, when_data=False):
+        return {"name": name, "kind": kind, "cols": cols, "when_data": when_data, "shift": -1, "name_format": None}
+    variants = [
+        # a level pinned at zero (directly, and only-when-data)
+        ([P("y1", "none", [1, 2])], {"y1": {"off": -1, "values": [1.5, NAN, 0.0, 0.0]}}),
+        ([P("y1", "none", [0, 1, 2, 3], True)], {"y1": {"off": -1, "values": [1.5, NAN, 0.0, NAN, 0.25]}}),
+        # a difference of -1 from an initial level of 1
+        ([P("y2", "diff", [0])], {"diff_y2": {"off": 0, "values": [-1.0]}}),
+        # a level exogenized to 1, then run down to zero by a difference of -1
+        ([P("y2", "none", [1]), P("y2", "diff", [2])], {"y2": {"off": -1, "values": [1.0, NAN, 1.0]},
+                                                         "diff_y2": {"off": 2, "values": [-1.0]}}),
+        # a percent change of -100, a gross rate of change of 0
+        ([P("y3", "pct", [1], True)], {"pct_y3": {"off": 0, "values": [NAN, -100.0, NAN]}}),
+        ([P("y4", "roc", [0])], {"roc_y4": {"off": 0, "values": [0.0]}}),
+        # flat from a zero initial level
+        ([P("y2", "flat", [0])], {"y2": {"off": -1, "values": [0.0]}}),
+    ]
+    out = []
+    for plan, extra in variants:
+        db = {k: dict(v) for k, v in base_db.items()}
+        db.update(extra)
+        out.append({"model": model, "source": source_of(model), "freq": 4, "start": 8080, "nper": 4, "db": db,
+                    "plan": plan, "opts": dict(opts)})
+    return out
+
+
 def falsify(ctx, hints):
     rng = ctx.rng
     fails: list[Failure] = []
     info = {"models": 0, "equation_cells": 0, "exogenized_cells": 0, "skipped_nonfinite": 0}
     cases = [(WITNESS, "dates_equations"), (WITNESS, "equations_dates")]
+    for zc in _zero_cases():
+        cases += [(zc, "dates_equations"), (zc, "equations_dates")]
     for d in (hints or {}).get("disagreements", [])[:10]:
         inp = d.get("input") if isinstance(d, dict) else None
         if isinstance(inp, dict) and "case" in inp and not inp["case"]["model"]["wild"]:
